@@ -263,4 +263,15 @@ def run_bc(task):
                           "mode": MODE})
 
     counts = _workloads(task, note)
+    if task.get("big"):
+        # large planted models (arity <= 14) in the bounds-check build: scratch arrays sized by arity / value range
+        from framework.props import bigrun
+
+        r = bigrun.run_big({"seed": task["seed"] + 77, "count": task["big"], "pass_limit": 1500, "exc_prop": "C16",
+                            "deadline_s": task.get("big_deadline_s", 60)})
+        counts["large_model_runs"] = r["evals"]
+        counts["large_model_passes"] = r["counters"].get("probe.bc_passes_monitored", 0)
+        for f in r["fails"]:
+            if f["prop"] == "C16":
+                fails.append(dict(f, input={"model": f.get("model"), "cfg": f.get("cfg"), "op": f.get("op")}))
     return {"fails": fails, "counts": counts, "halted": False, "mode": MODE, "wall": time.time() - t0}
